@@ -41,7 +41,7 @@ C02Step(s, ev) ==
       isErr == "error" \in DOMAIN ev
   IN IF ~consistent
      THEN [ok |-> FALSE, st |-> s, drop |-> FALSE, cont |-> TRUE,
-           msg |-> "SPEC-INCONSISTENT: XPathSyntax!Parse of the rendered text differs from the generated AST: " \o ToString(pr)]
+           msg |-> "SPEC-INCONSISTENT: XPathSyntax!Parse of the rendered text differs from the generated AST: " \o ToString(pr.ast) \o " GENERATED " \o ToString(ev.expr)]
      ELSE IF ~pr.ok
      THEN [ok |-> isErr, st |-> s, drop |-> FALSE, cont |-> TRUE,
            msg |-> "NOT-AN-EXPRESSION accepted: the token string is not derivable from the XPath 1.0 grammar but evaluation returned a value"]
